@@ -16,7 +16,7 @@ def keyfn(case, res, m):
 def build_cases(chk):
     rng = chk.rng
     cases = scen_log.boundary_cases(rng, chk.tier)
-    n = 70 if chk.tier == 'quick' else 2500
+    n = 70 if chk.tier == 'quick' else 5000
     cases += [scen_log.gen_case(rng, chk.tier) for _ in range(n)]
     sv = [(0, 10), (5, 100), (400, 1000)] if chk.tier == 'quick' else [(0, 10), (1, 10), (5, 100), (400, 1000), (2000, 100), (10, 70000)] * 4
     cases += [scen_log.servlet_case(rng, a, b) for a, b in sv]
